@@ -234,6 +234,8 @@ export class TypeGen {
       if (used.has(name)) continue;
       used.add(name);
       const p = A.prop(name, this.type(depth - 1), allowOpt && r.chance(0.3));
+      // an optional member that spells its missing value out as well: `a?: T | undefined`, `a?: T | null`
+      if (p.opt && r.chance(0.2)) p.t = A.union([p.t, ...r.pick([[A.kw("undefined")], [A.kw("null")], [A.kw("null"), A.kw("undefined")]])]);
       if (r.chance(0.15)) p.ro = true;
       if (r.chance(0.1)) p.quote = true;
       if (this.f.jsdoc && r.chance(this.f.jsdocRate ?? 0.08)) p.doc = { kind: "jsdoc", text: r.pick(["the field", "a */ tricky doc", "multi word doc", "another wording", "price of the item", "amount paid back"]).replace("*/", "* /") };
